@@ -1,1 +1,181 @@
+(* C10_Props.v — the property theorems of C10 and nothing else.
+   `run h` is the state of the (repaired) clientProcessRunner after the ARBITRARY action list h:
+   any number of requests, any names (duplicates included), any bytes on the client's stdout in
+   any chunking, stdout/stdin closed or the process gone at any point, and any interleaving of
+   the senders, the reader goroutine, the exit notice, closeSend, stop and waitForResponses
+   (one action = one lock region / atomic operation / pipe operation of client_runner.go). *)
 From V Require Import C10_Spec C10_Proofs.
+Open Scope N_scope.
+
+(* never twice *)
+Theorem at_most_once : forall h i, (times_fired i (run h) <= 1)%nat.
+Proof. exact at_most_once_proof. Qed.
+Print Assumptions at_most_once.
+
+(* once the reader has exited (what waitForResponses waits for): a request that sendRequest
+   accepted has had its callback invoked exactly once, one that was refused (or never sent) never *)
+Theorem exactly_once : forall h i,
+  reader_exited (run h) ->
+  (accepted (run h) i -> times_fired i (run h) = 1%nat) /\
+  (refused (run h) i -> times_fired i (run h) = 0%nat) /\
+  (not_called (run h) i -> times_fired i (run h) = 0%nat).
+Proof. exact exactly_once_proof. Qed.
+Print Assumptions exactly_once.
+
+(* a response callback carries the request's own test name and a message that the client
+   really wrote, as a well-formed frame, on its stdout *)
+Theorem own_response : forall h i n tag,
+  In (i, OResp n tag) (run h).(fired) -> (run h).(rname) i = n /\ client_wrote h n tag.
+Proof. exact own_response_proof. Qed.
+Print Assumptions own_response.
+
+(* ... and an error callback is invoked with the request's own test name too *)
+Theorem failure_names_request : forall h i n e,
+  In (i, OFail n e) (run h).(fired) -> (run h).(rname) i = n.
+Proof. exact failure_names_request_proof. Qed.
+Print Assumptions failure_names_request.
+
+(* if the client answers a pending request with a well-formed message, that request's callback
+   gets exactly this response and the reader keeps going *)
+Theorem response_delivered : forall s m rest n tag i,
+  s.(rd) = RRun -> next_item s.(buf) = IMsg m rest -> decode m = Some (n, tag) ->
+  lookup n s.(pending) = Some i ->
+  (step s RStep).(fired) = s.(fired) ++ [(i, OResp n tag)] /\ (step s RStep).(rd) = RRun.
+Proof. exact response_delivered_proof. Qed.
+Print Assumptions response_delivered.
+
+(* after a failure of the client (truncated, oversized, garbled output, unknown or already
+   answered test) - and likewise once the reader has closed the send side after a clean end of
+   output - a request not yet handed over is refused, whatever happens later, and its
+   callback is never invoked *)
+Theorem refused_after_failure : forall h h' i,
+  reader_gone (run h) -> not_called (run h) i ->
+  let s := run (h ++ h') in
+  ~ accepted s i /\ s.(phase_of) i <> Writing /\ times_fired i s = 0%nat.
+Proof. exact refused_after_failure_proof. Qed.
+Print Assumptions refused_after_failure.
+
+(* after a failure the runner reports the client as not running, for good *)
+Theorem not_running_after_failure : forall h h',
+  reader_failed (run h) -> is_running (run (h ++ h')) = false.
+Proof. intros h h' H. exact (proj2 (after_failure_proof h h' H)). Qed.
+Print Assumptions not_running_after_failure.
+
+(* ... and also once the process's exit has been noticed, and after stop() *)
+Theorem not_running_after_exit : forall h h',
+  (run h).(noticed) = true -> is_running (run (h ++ h')) = false.
+Proof. exact not_running_after_exit_proof. Qed.
+Print Assumptions not_running_after_exit.
+
+Theorem not_running_after_stop : forall h h', is_running (run (h ++ Stop :: h')) = false.
+Proof. exact not_running_after_stop_proof. Qed.
+Print Assumptions not_running_after_stop.
+
+(* the code as pinned (exit notice stores false) violates this: client gone, reader exited,
+   notice delivered, isRunning() still true *)
+Theorem pinned_is_running_refuted :
+  exists h, let s := run_with false h in
+    reader_exited s /\ s.(alive) = false /\ s.(noticed) = true /\ is_running s = true.
+Proof. exact pinned_is_running_refuted_proof. Qed.
+Print Assumptions pinned_is_running_refuted.
+
+(* once the reader has exited no operation is pending, and waitForResponses returns *)
+Theorem nothing_pending_after_exit : forall h,
+  reader_exited (run h) -> (run h).(pending) = [] /\ (run h).(closed) = true.
+Proof. exact nothing_pending_after_exit_proof. Qed.
+Print Assumptions nothing_pending_after_exit.
+
+Theorem wait_returns : forall h,
+  reader_exited (run h) -> (step (run h) Wait).(wait_ret) <> None.
+Proof. exact wait_returns_proof. Qed.
+Print Assumptions wait_returns.
+
+(* no deadlock: from EVERY reachable state the system completes as soon as the client process
+   ends (the environment's only obligation): the in-flight writer returns, the reader exits,
+   nothing is pending and sendMu is free ... *)
+Theorem no_deadlock : forall h,
+  let s' := run_from (run h) (wind_down (run h)) in
+  reader_exited s' /\ s'.(mu) = None /\ s'.(pending) = [] /\ (forall i, s'.(phase_of) i <> Writing).
+Proof. exact no_deadlock_proof. Qed.
+Print Assumptions no_deadlock.
+
+(* ... a sender inside its write always has an enabled way out (the client reads, or its stdin is gone) ... *)
+Theorem writer_never_stuck : forall h i,
+  (run h).(phase_of) i = Writing ->
+  (step (run h) (WriteOk i)).(phase_of) i = Ret None \/
+  exists r, (step (run h) (WriteFail i)).(phase_of) i = Ret r.
+Proof. exact writer_never_stuck_proof. Qed.
+Print Assumptions writer_never_stuck.
+
+(* ... and a sender that was waiting for sendMu then gets it and is refused *)
+Theorem parked_sender_returns : forall h i,
+  reader_exited (run h) -> (run h).(mu) = None -> (run h).(phase_of) i = Checked ->
+  (step (run h) (SendLock i)).(phase_of) i = Ret (Some EClosed).
+Proof. exact parked_sender_returns_proof. Qed.
+Print Assumptions parked_sender_returns.
+
+(* ---- non-vacuity ---- *)
+Definition a := bs "a".
+Definition b := bs "b".
+Definition fa := frame (encode a (bs "ra")).
+Definition fb := frame (encode b (bs "rb")).
+Definition sent (i : N) (n : name) := [SendCheck i n; SendLock i; WriteOk i].
+
+(* answers in the other order; then a clean exit *)
+Example ex_shuffled :
+  let s := run (sent 0 a ++ sent 1 b ++ [COut (fb ++ fa); RStep; RStep; ProcExit false false; ExitNotice; RStep; RClose; RDrain; Wait]) in
+  (s.(fired), s.(wait_ret), is_running s, s.(rd))
+  = ([(1, OResp b (bs "rb")); (0, OResp a (bs "ra"))], Some None, false, RDone).
+Proof. vm_compute. reflexivity. Qed.
+
+Example ex_shuffled_fired :
+  (run (sent 0 a ++ sent 1 b ++ [COut (fb ++ fa); RStep; RStep])).(fired)
+  = [(1, OResp b (bs "rb")); (0, OResp a (bs "ra"))].
+Proof. vm_compute. reflexivity. Qed.
+
+(* output cut inside b's answer: a got its response, b an error; the runner is not running; a later send is refused *)
+Example ex_truncated :
+  let s := run (sent 0 a ++ sent 1 b ++ [COut (fa ++ firstn 7 fb); CCloseOut; RStep; RStep; RClose; RDrain;
+                                         SendCheck 2 (bs "c"); SendLock 2]) in
+  (s.(fired), s.(phase_of) 2, is_running s, s.(rd))
+  = ([(0, OResp a (bs "ra")); (1, OFail b (Some RUnexp))], Ret (Some (EReason RUnexp)), false, RDone).
+Proof. vm_compute. reflexivity. Qed.
+
+(* the client answers while the request is still being written, then dies: the write fails,
+   sendRequest still returns nil ("concurrently removed"), the callback fired once *)
+Example ex_answer_before_write_returns :
+  let s := run [SendCheck 0 a; SendLock 0; COut fa; RStep; ProcExit false false; WriteFail 0] in
+  (s.(phase_of) 0, s.(fired), s.(mu)) = (Ret None, [(0, OResp a (bs "ra"))], None).
+Proof. vm_compute. reflexivity. Qed.
+
+(* the write fails with the request unanswered: refused, never fired *)
+Example ex_write_fails :
+  let s := run [SendCheck 0 a; SendLock 0; ProcExit false false; WriteFail 0; RStep; RClose; RDrain] in
+  (s.(phase_of) 0, s.(fired), s.(err)) = (Ret (Some EClosed), [], Some EClosed).
+Proof. vm_compute. reflexivity. Qed.
+
+(* duplicate name while pending; unknown name; already answered *)
+Example ex_duplicate_request :
+  (run (sent 0 a ++ [SendCheck 1 a; SendLock 1])).(phase_of) 1 = Ret (Some EDup).
+Proof. vm_compute. reflexivity. Qed.
+Example ex_already_answered :
+  (run (sent 0 a ++ [COut (fa ++ fa); RStep; RStep])).(rd) = RStop1 RDupResp.
+Proof. vm_compute. reflexivity. Qed.
+Example ex_unknown :
+  (run (sent 0 a ++ [COut fb; RStep])).(rd) = RStop1 RUnknown.
+Proof. vm_compute. reflexivity. Qed.
+Example ex_oversize :
+  (run (sent 0 a ++ [COut [1; 0; 0; 1]; RStep])).(rd) = RStop1 ROversize.
+Proof. vm_compute. reflexivity. Qed.
+
+(* hypotheses are inhabited *)
+Example ex_reader_failed : reader_failed (run (sent 0 a ++ [COut fb; RStep])).
+Proof. exists RUnknown. split; [discriminate|]. left. vm_compute. reflexivity. Qed.
+Example ex_client_wrote : client_wrote (sent 0 a ++ [COut (fb ++ fa)]) a (bs "ra").
+Proof.
+  exists fb, (firstn 4 fa), (encode a (bs "ra")), []. vm_compute. repeat split; reflexivity.
+Qed.
+Example ex_parked :
+  let s := run [SendCheck 0 a; CCloseOut; RStep; RClose; RDrain] in
+  reader_exited s /\ s.(mu) = None /\ s.(phase_of) 0 = Checked.
+Proof. vm_compute. repeat split; reflexivity. Qed.
